@@ -197,8 +197,16 @@ FiberLoss(s, alphaL) == s.attIn + s.conIn + alphaL + s.lumped + s.conOut
 
 \* --- clauses on one observed fibre crossing --------------------------------------------------------------------
 \* x = [attIn, conIn, conOut, lumped, raman, fresh, cfg, ch |-> <<[alphaL, in, out, outFresh]>>]
+\* connectors: the figure the fibre DECLARES in the topology (0 is a declared figure), the library's Span default only when
+\* the fibre declares none (decl = 1: the event carries the declared figures, NONE = not declared, and the Span defaults;
+\* decl = 0: the figures are read off the element)
+Connector(declared, default) == IF declared = NONE THEN default ELSE declared
+FiberBudgetOf(x, alphaL) == IF x.decl = 1
+                            THEN FiberLoss([attIn |-> x.attIn, conIn |-> Connector(x.conInDecl, x.conInDef),
+                                            conOut |-> Connector(x.conOutDecl, x.conOutDef), lumped |-> x.lumped], alphaL)
+                            ELSE FiberLoss(x, alphaL)
 FiberLossBudget(x, tol) == x.raman = 0 =>
-                              \A i \in 1..Len(x.ch) : Within(x.ch[i].in - x.ch[i].out, FiberLoss(x, x.ch[i].alphaL), tol)
+                              \A i \in 1..Len(x.ch) : Within(x.ch[i].in - x.ch[i].out, FiberBudgetOf(x, x.ch[i].alphaL), tol)
 \* no memory (Raman on or off): what a fibre does to a spectral information does not depend on what crossed it before:
 \* it is what a FRESH fibre with the same configuration does (fresh = 1: the event carries that reference, outFresh)
 FiberNoMemory(x, tol) == x.fresh = 1 => \A i \in 1..Len(x.ch) : Within(x.ch[i].out, x.ch[i].outFresh, tol)
